@@ -31,6 +31,10 @@ type c20Case struct {
 	NRcpt  []int      `json:"nrcpt"` // recipients per message
 	ESC    bool       `json:"esc"`   // ENHANCEDSTATUSCODES advertised
 	Faults []c20Fault `json:"faults"`
+	// TwoConns: the Client holds two connections at once (DialToSMTPClientWithContext twice); the
+	// second one goes to a server that advertises the OPPOSITE of ESC; the messages are sent over the
+	// first connection with SendWithSMTPClient. What counts is what the connection in use advertised.
+	TwoConns bool `json:"two_conns,omitempty"`
 }
 
 var escLead = regexp.MustCompile(`^([245]\.\d{1,3}\.\d{1,3})(?:\s|$)`)
@@ -72,6 +76,28 @@ func c20Run(c c20Case) []*core.Violation {
 	}
 	var sendErr, dialErr error
 	res := watchdog(20*time.Second, d, func() error {
+		if c.TwoConns {
+			sc1, err := cl.DialToSMTPClientWithContext(context.Background())
+			if err != nil {
+				dialErr = err
+				return nil
+			}
+			otherCaps := []string{"8BITMIME"}
+			if !c.ESC {
+				otherCaps = append(otherCaps, "ENHANCEDSTATUSCODES")
+			}
+			d.Srv = refsmtp.NewServer(refsmtp.Script{Caps: otherCaps, NoGreetProbe: true})
+			sc2, err := cl.DialToSMTPClientWithContext(context.Background())
+			if err != nil {
+				dialErr = err
+				_ = cl.CloseWithSMTPClient(sc1)
+				return nil
+			}
+			sendErr = cl.SendWithSMTPClient(sc1, msgs...)
+			_ = cl.CloseWithSMTPClient(sc1)
+			_ = cl.CloseWithSMTPClient(sc2)
+			return nil
+		}
 		if dialErr = cl.DialWithContext(context.Background()); dialErr != nil {
 			return nil
 		}
@@ -235,7 +261,7 @@ func c20Run(c c20Case) []*core.Violation {
 	}
 	if nt || rejectedPartial {
 		sort.Strings(keys)
-		rec.NonTrivial(core.Join(fmt.Sprint(c.NRcpt), c.ESC, strings.Join(keys, ",")))
+		rec.NonTrivial(core.Join(fmt.Sprint(c.NRcpt), c.ESC, strings.Join(keys, ","), c.TwoConns))
 		rec.Sample(fmt.Sprintf("%d/%v", len(c.Faults), c.ESC), map[string]interface{}{"nrcpt": c.NRcpt, "esc_advertised": c.ESC, "faults": c.Faults})
 	}
 	return vs
@@ -261,7 +287,7 @@ func c20GenFault(t *rapid.T, msg int, nrcpt int, pos string) c20Fault {
 }
 
 func c20Gen(t *rapid.T) c20Case {
-	c := c20Case{ESC: rapid.Bool().Draw(t, "esc")}
+	c := c20Case{ESC: rapid.Bool().Draw(t, "esc"), TwoConns: rapid.IntRange(0, 3).Draw(t, "twoconns") == 0}
 	n := rapid.IntRange(1, 4).Draw(t, "nmsgs")
 	for i := 0; i < n; i++ {
 		c.NRcpt = append(c.NRcpt, rapid.IntRange(1, 4).Draw(t, "nrcpt"))
@@ -284,7 +310,7 @@ func c20Gen(t *rapid.T) c20Case {
 func c20Describe() {
 	rec := core.Rec("C20")
 	rec.Rule = "batches of 1..4 messages x 1..4 recipients sent with Client.Send to the reference server, which answers 1..4 chosen commands (MAIL, individual RCPTs, DATA, end-of-data, the RSET after a delivered message) with a reply code from 400..599 and a text from {plain, leading well-formed enhanced code, enhanced-looking material later in the text (IPv4 addresses, version numbers, quoted replies of an upstream server such as '550 5.1.1 User unknown'), malformed enhanced codes, multi-line}, with ENHANCEDSTATUSCODES advertised or not. " +
-		"TestC20Enum (thorough) enumerates all 200 codes x 5 positions x ESC on/off x 5 text kinds for a single message. " +
+		"One case in four holds two connections of the same Client at once (DialToSMTPClientWithContext twice, the second to a server advertising the opposite of ENHANCEDSTATUSCODES) and sends over the first with SendWithSMTPClient. TestC20Enum (thorough) enumerates all 200 codes x 5 positions x ESC on/off x 5 text kinds for a single message. " +
 		"Oracle, computed from what the server sent: Reason names the step, ErrorCode() == code, IsTemp() <=> 4yz, EnhancedStatusCode() == leading enhanced code iff advertised and the reply began with one, the recipients listed == exactly the rejected ones with code/temp/enhanced code of the last rejection, unaffected messages carry no error, Send's joined error has one entry per failed message and Msg.SendError() is that entry. " +
 		"Non-trivial: a code other than 450/550 or a partial recipient rejection. Distinct by (batch, ESC, fault list)."
 	rec.Assumptions = []string{"only 'reply' outcomes are injected (no disconnects), so every message reaches its MAIL command", "NOOP replies are not faulted (not in the property's quantifier)"}
